@@ -19,6 +19,8 @@ import (
 	"net"
 	"net/http"
 	"net/http/httptest"
+	"os"
+	"path/filepath"
 	"reflect"
 	"strings"
 	"sync"
@@ -76,6 +78,9 @@ func identity() *tlspeer.Identity {
 var advKinds = []string{
 	"tls-required", "tls-optional", "tls-required+others", "tls-optional+others",
 	"mechs-only", "mechs+bind", "empty", "unknown-only", "inst-only", "tls-wrongns",
+	// look-alikes: another element in the STARTTLS namespace (nothing that
+	// advertises STARTTLS), alone, with mechanisms, with everything else
+	"tlsns-other", "tlsns-other+mechs", "tlsns-other+others",
 }
 
 var answerKinds = []string{
@@ -133,6 +138,11 @@ type scenario struct {
 	// the session a server-to-server initiator whose own address is Domain.
 	Location string `json:"location,omitempty"`
 	S2S      bool   `json:"s2s,omitempty"`
+	// Transport: what carries the stream: "" the harness's in-memory
+	// connection, "unix" a connected pair of Unix domain sockets (the client end
+	// is a *net.UnixConn), "tcp" a loopback TCP connection (*net.TCPConn).  The
+	// byte monitor then reads what the peer's end received.
+	Transport string `json:"transport,omitempty"`
 	// Info: the client also configures an informational feature (no Negotiate)
 	// whose Parse stores data; the clear-text "others" list carries it with
 	// v='clear'.  TLSInfo: the first protected list carries it with v='tls'.
@@ -210,6 +220,13 @@ func genScenario(r *rand.Rand) scenario {
 		// the server name check needs the default configuration and a <proceed/>
 		sc.Cfg, sc.Answer = "default", "proceed-tls"
 	}
+	if sc.Location == "" && r.Intn(6) == 0 {
+		// a server-to-server initiator addressing its peer's own domain
+		sc.S2S, sc.WS = true, ""
+	}
+	if sc.Wrap == "" && r.Intn(6) == 0 {
+		sc.Transport = []string{"unix", "tcp"}[r.Intn(2)]
+	}
 	return sc
 }
 
@@ -266,6 +283,12 @@ func advXML(sc scenario) string {
 		in = "<inst xmlns='" + nsInst + "'/>"
 	case "tls-wrongns":
 		in = "<starttls xmlns='urn:verif:not-tls'><required/></starttls>" + mechsXML(sc)
+	case "tlsns-other":
+		in = "<policy xmlns='" + nsTLS + "'><required/></policy>"
+	case "tlsns-other+mechs":
+		in = "<tls xmlns='" + nsTLS + "'/>" + mechsXML(sc)
+	case "tlsns-other+others":
+		in = others + "<proceed xmlns='" + nsTLS + "'/>"
 	default:
 		panic("c02: unknown advertisement " + sc.Adv)
 	}
@@ -779,7 +802,52 @@ func runSession(c *core.Case, sc scenario, stls xmpp.StreamFeature, sh *shared) 
 	var libConn net.Conn         // the client's end
 	var rawWritten func() []byte // what the client put on the connection, byte for byte
 	closeBoth := func() {}
-	if sc.RealWS == "" {
+	if sc.RealWS == "" && sc.Transport != "" {
+		// real sockets: the library sees the concrete connection type
+		network, addr, cleanup := "tcp", "127.0.0.1:0", func() {}
+		if sc.Transport == "unix" {
+			dir, derr := os.MkdirTemp("", "c02sock")
+			if derr != nil {
+				c.Inconclusive("cannot create a directory for the socket: %v", derr)
+				res.Wedged = true
+				return res
+			}
+			network, addr, cleanup = "unix", filepath.Join(dir, "s"), func() { os.RemoveAll(dir) }
+		}
+		defer cleanup()
+		ln, lerr := net.Listen(network, addr)
+		if lerr != nil {
+			c.Inconclusive("cannot listen on %s: %v", network, lerr)
+			res.Wedged = true
+			return res
+		}
+		defer ln.Close()
+		rc := &recConn{}
+		go func() {
+			defer close(peerDone)
+			pc, aerr := ln.Accept()
+			if aerr != nil {
+				return
+			}
+			rc.set(pc)
+			runPeer(rc, sc, rec)
+			// whatever the client still wrote belongs to the record
+			pc.SetReadDeadline(time.Now().Add(200 * time.Millisecond))
+			io.Copy(io.Discard, rc)
+			pc.Close()
+		}()
+		conn, derr := net.Dial(network, ln.Addr().String())
+		if derr != nil {
+			ln.Close()
+			<-peerDone
+			c.Inconclusive("cannot dial %s: %v", network, derr)
+			res.Wedged = true
+			return res
+		}
+		c.Count("transport_"+sc.Transport+"_sessions", 1)
+		libConn, rawWritten = conn, rc.received
+		closeBoth = func() { conn.Close(); rc.Close() }
+	} else if sc.RealWS == "" {
 		lib, peer := bufconn.Pipe()
 		go func() {
 			defer close(peerDone)
@@ -1176,6 +1244,12 @@ func judge(c *core.Case, sc scenario, res result, prior []string) {
 	}
 	if sc.ClearFrom != "" {
 		c.Count("clear_from_"+sc.ClearFrom, 1)
+	}
+	if sc.S2S {
+		c.Count("s2s_sessions", 1)
+		if forced {
+			c.Count("s2s_forced_starttls", 1)
+		}
 	}
 	if sc.ClearTo != "" {
 		c.Count("clear_to_"+sc.ClearTo, 1)
@@ -1712,6 +1786,27 @@ var fixedGroups = []func(c *core.Case){
 		fixedNear(c, scenario{ClearTo: "near-domain-shift", S2S: true, Location: domains[3]})
 	},
 	func(c *core.Case) { fixedNear(c, scenario{ClearTo: "near-domain-shift", ClearFrom: "near-shift"}) },
+	// server-to-server initiators to which STARTTLS is not advertised
+	func(c *core.Case) { fixedPlain(c, scenario{S2S: true, Adv: "empty"}, "s2s") },
+	func(c *core.Case) { fixedPlain(c, scenario{S2S: true, Adv: "unknown-only"}, "s2s") },
+	func(c *core.Case) { fixedPlain(c, scenario{S2S: true, Adv: "mechs-only"}, "s2s") },
+	// look-alike elements in the STARTTLS namespace
+	func(c *core.Case) { fixedPlain(c, scenario{Adv: "tlsns-other"}, "tlsns") },
+	func(c *core.Case) { fixedPlain(c, scenario{Adv: "tlsns-other+mechs"}, "tlsns") },
+	func(c *core.Case) { fixedPlain(c, scenario{Adv: "tlsns-other+others"}, "tlsns") },
+	// real sockets
+	func(c *core.Case) { fixedPlain(c, scenario{Adv: "mechs+bind", Transport: "unix"}, "unix") },
+	func(c *core.Case) { fixedPlain(c, scenario{Adv: "tls-required+others", Transport: "unix"}, "unix") },
+	func(c *core.Case) { fixedPlain(c, scenario{Adv: "mechs+bind", Transport: "tcp"}, "tcp") },
+	func(c *core.Case) { fixedPlain(c, scenario{Adv: "tls-optional+others", Transport: "tcp"}, "tcp") },
+}
+
+// fixedPlain runs one scenario whose peer goes through with TLS when asked
+// (so that the only ways out are a protected stream or an error), tee on and off.
+func fixedPlain(c *core.Case, sc scenario, what string) {
+	sc.Answer, sc.InTLS, sc.Cfg, sc.Domain, sc.Order, sc.TLSHdr, sc.CfgFunc, sc.Mechs = "proceed-tls", "full", "explicit", domains[2], []int{0, 1, 2, 3}, "complete", "static", "plain"
+	c.Count("fixed_"+what+"_groups", 1)
+	teeGroupN(c, sc, []string{"both"}, 0)
 }
 
 func fixedNear(c *core.Case, sc scenario) {
@@ -1791,6 +1886,7 @@ func Prop() *core.Prop {
 		"reuse_caller_config_compared_explicit-noname", "reuse_caller_config_compared_explicit-insecure", "reuse_caller_config_compared_explicit",
 		"fixed_several_features_groups_mechs_scram", "fixed_several_features_groups_mechs_both", "fixed_several_features_groups_mechs_plain",
 		"sessions_with_several_features_on_one_clear_list_mechs_scram", "repeated_sessions_compared", "in_tls_scram_exchanges_completed",
+		"fixed_s2s_groups", "fixed_tlsns_groups", "fixed_unix_groups", "fixed_tcp_groups", "transport_unix_sessions", "transport_tcp_sessions", "s2s_sessions", "s2s_forced_starttls",
 		"feature_queries_after_handshake", "handshakes_after_clear_only_features", "protected_feature_data_seen",
 		"other_location_sni_checked_c2s", "other_location_sni_checked_s2s",
 		"clear_to_omitted", "clear_to_foreign-full", "clear_to_foreign-bare", "clear_to_foreign-domain", "clear_to_foreign_stopped_negotiation")
